@@ -211,17 +211,22 @@ func insertMethod(class, super slip.Class, method *slip.Method, combo *slip.Comb
 		mm[method.Name] = m
 		return
 	}
-	var pos int
-	if pos < len(m.Combinations) && m.Combinations[pos].From == class {
-		pos++
+	// The combinations are kept in precedence order: the class itself and
+	// then the inherited classes in order. The new combination goes in front
+	// of the first combination from a class that follows super in that order.
+	order := append([]slip.Class{class}, class.InheritsList()...)
+	rank := func(c slip.Class) int {
+		for i, f := range order {
+			if f == c {
+				return i
+			}
+		}
+		return len(order)
 	}
-	for _, f := range class.InheritsList() {
-		if len(m.Combinations) <= pos || m.Combinations[pos].From == super {
-			break
-		}
-		if m.Combinations[pos].From == f {
-			pos++
-		}
+	sr := rank(super)
+	var pos int
+	for pos < len(m.Combinations) && rank(m.Combinations[pos].From) < sr {
+		pos++
 	}
 	m.Combinations = slices.Insert(m.Combinations, pos, combo)
 }
